@@ -269,9 +269,10 @@ def r3_counters(ctx, rep, R='C17.R3'):
     tci = m.cls('formatter.TestCaseInfo')
     fields = [n.target.id for n in tci.node.body if isinstance(n, ast.AnnAssign)]
     mk = [c for c in own_calls(rec.node) if call_name(c) == 'TestCaseInfo']
-    good = len(mk) == 1 and not mk[0].keywords and len(mk[0].args) == len(fields)
+    good = len(mk) == 1 and len(mk[0].args) + len(mk[0].keywords) == len(fields)
     if good:
         m_ = dict(zip(fields, [norm(a) for a in mk[0].args]))
+        m_.update({k.arg: norm(k.value) for k in mk[0].keywords})
         good = m_.get('failure') == 'failure' and m_.get('error') == 'error' and \
             m_.get('testName') == 'testName' and m_.get('testClassName') == 'testClassName'
     rep.check(good, R, '_record stores failure/error/name/class in the fields of the same name',
